@@ -849,8 +849,8 @@ Qed.
 
 (* with LimitObjective the figures are those of the tree as soon as one post-processing
    stage ran ... *)
-Lemma limit_records_tree_costs em o b tr :
-  exact_opts o -> stages_of o <> [] -> trial_fn em ObjLimit o b = Ok tr ->
+Lemma limit_records_tree_costs em ens o b tr :
+  exact_opts o -> stages_of o <> [] -> trial_fn em (ObjLimit ens) o b = Ok tr ->
   tr = failed_trial \/ describes tr.
 Proof.
   intros Ho Hne H. unfold trial_fn, compute_score in H.
@@ -862,7 +862,39 @@ Proof.
       - eapply run_stages_describes; [apply stages_updating, Ho|left; exact Hne|exact E1].
       - rewrite (proj2 (run_stages_err _)) in E1. discriminate.
       - rewrite (proj1 (run_stages_err _)) in E1. discriminate. }
-    unfold score_fn in E. destruct D as (t & Ht & Hf & Hw & Hz). rewrite Ht in E. injection E as <- <-.
+    assert (D2 : exists tr2, (if ens then ensure_basic T stats tr1 else Ok tr1) = Ok tr2 /\ describes tr2).
+    { destruct ens.
+      - destruct (ensure_basic T stats tr1) as [tr2| |] eqn:E2.
+        + exists tr2. split; [reflexivity|]. eapply ensure_basic_describes; [left; exact D|exact E2].
+        + unfold ensure_basic in E2. destruct D as (t & Ht & Hf & Hw & Hz). rewrite Hf, Hw, Hz in E2. discriminate.
+        + unfold ensure_basic in E2. destruct D as (t & Ht & Hf & Hw & Hz). rewrite Hf, Hw, Hz in E2. discriminate.
+      - exists tr1. split; [reflexivity|exact D]. }
+    destruct D2 as (tr2 & E2 & D2). rewrite E2 in E. cbn in E.
+    destruct D2 as (t & Ht & Hf & Hw & Hz). rewrite Ht in E. injection E as <- <-.
+    exists t. unfold set_score. cbn. repeat split; assumption.
+  - left. injection H as <-. reflexivity.
+  - left. destruct em; try discriminate; injection H as <-; reflexivity.
+Qed.
+
+(* ... and, once LimitObjective fills the basic quantities like the others, always *)
+Lemma limit_fixed_records_tree_costs em o b tr :
+  exact_opts o -> trial_fn em (ObjLimit true) o b = Ok tr ->
+  tr = failed_trial \/ describes tr.
+Proof.
+  intros Ho H. unfold trial_fn, compute_score in H.
+  destruct (rbind (run_stages (stages_of o) (base_trial T b)) _) as [[tr0 x]| |] eqn:E.
+  - right. injection H as <-.
+    destruct (run_stages (stages_of o) (base_trial T b)) as [tr1| |] eqn:E1; cbn in E; try discriminate.
+    destruct (ensure_basic T stats tr1) as [tr2| |] eqn:E2; cbn in E; try discriminate.
+    assert (D : describes tr2).
+    { eapply ensure_basic_describes; [|exact E2].
+      destruct b as [t| |]; cbn in E1.
+      - destruct (stages_of o) as [|s ss] eqn:Es.
+        + cbn in E1. injection E1 as <-. right. unfold bare. cbn. split; [eexists; reflexivity|repeat split; reflexivity].
+        + left. eapply (run_stages_describes (s :: ss)); [rewrite <- Es; apply stages_updating, Ho|left; discriminate|exact E1].
+      - rewrite (proj2 (run_stages_err _)) in E1. discriminate.
+      - rewrite (proj1 (run_stages_err _)) in E1. discriminate. }
+    destruct D as (t & Ht & Hf & Hw & Hz). rewrite Ht in E. injection E as <- <-.
     exists t. unfold set_score. cbn. repeat split; assumption.
   - left. injection H as <-. reflexivity.
   - left. destruct em; try discriminate; injection H as <-; reflexivity.
@@ -870,7 +902,7 @@ Qed.
 
 (* ... and absent otherwise: _maybe_report_result then raises KeyError (finding limit-objective-keyerror) *)
 Lemma limit_without_stage_has_no_costs em t :
-  exists tr, trial_fn em ObjLimit (mkOpts false false false false false) (Ok t) = Ok tr /\
+  exists tr, trial_fn em (ObjLimit false) (mkOpts false false false false false) (Ok t) = Ok tr /\
              t_flops tr = None /\ forall mts st s, report T mts st s tr = None.
 Proof.
   eexists. split; [reflexivity|]. split; [reflexivity|]. intros. reflexivity.
